@@ -35,6 +35,7 @@ structure Accepted (D : Nat) (x0 lb ub plb pub : List Ext) (n : Norm) : Prop whe
   dims : lb.length = D ∧ ub.length = D ∧ plb.length = D ∧ pub.length = D
   plausibleFinite : (plb.all (·.isFinite) ∧ pub.all (·.isFinite))
   x0Inside : anyB (zip2 Ext.lt x0 lb) = false ∧ anyB (zip2 (fun x u => Ext.lt u x) x0 ub) = false
+  x0NotInf : anyB (x0.map (·.isInf)) = false
   distinguishable : anyB (zip2 (fun a b => Ext.le b a) (map2 effLo lb ub) (map2 effHi lb ub)) = false
   orderedInput : (zip4 ordOK lb plb pub ub).all id = true
   orderedOutput : (zip4 ordOK n.lb n.plb n.pub n.ub).all id = true
@@ -68,7 +69,8 @@ theorem checkCore_accepted (D : Nat) (x0 lb ub plb pub : List Ext) (n : Norm)
   simp only [Bool.or_eq_false_iff, bne_eq_false_iff_eq] at h1 h2 h5
   exact { dims := ⟨h1.1.1.1, h1.1.1.2, h1.1.2, h1.2⟩
           plausibleFinite := ⟨all_of_any_not _ h2.1, all_of_any_not _ h2.2⟩
-          x0Inside := h5
+          x0Inside := h5.1
+          x0NotInf := h5.2
           distinguishable := h6
           orderedInput := anyB_not_map_false _ h7
           orderedOutput := anyB_not_map_false _ h8
@@ -186,6 +188,17 @@ theorem rejects_x0_outside (r : Raw) (x0 lb ub plb pub : List Ext)
   · have := zip2_any_get Ext.lt x0 lb i x l acc.x0Inside.1 hx hl; rw [hout] at this; cases this
   · have := zip2_any_get (fun x u => Ext.lt u x) x0 ub i x u acc.x0Inside.2 hx hu; simp only [hout] at this; cases this
 
+/-- an infinite start coordinate is never accepted - not on an unbounded variable either (no point of the space lies there) -/
+theorem rejects_infinite_x0 (r : Raw) (x0 lb ub plb pub : List Ext)
+    (hp : prepare r = some (x0, lb, ub, plb, pub)) (x : Ext) (hx : x ∈ x0) (hinf : x.isInf = true) : ∀ n, validate r ≠ .ok n := by
+  intro n h
+  obtain ⟨x0', lb', ub', plb', pub', hp', acc⟩ := accepted_facts r n h
+  rw [hp] at hp'; cases hp'
+  have hn := acc.x0NotInf
+  simp only [anyB, List.any_map, List.any_eq_false] at hn
+  have := hn x hx
+  simp [hinf] at this
+
 /-- a variable bounded on one side only is never accepted -/
 theorem rejects_half_bounded (r : Raw) (x0 lb ub plb pub : List Ext)
     (hp : prepare r = some (x0, lb, ub, plb, pub)) (i : Nat) (l u : Ext)
@@ -239,18 +252,18 @@ theorem ext_lt_of_not_le (a b : Ext) (ha : a.isNan = false) (hb : b.isNan = fals
 theorem coordValid_of_checks (x0 lb ub plb pub : Ext)
     (h1 : plb.isFinite = true) (h2 : pub.isFinite = true) (h3 : Ext.lt x0 lb = false) (h4 : Ext.lt ub x0 = false)
     (h5 : Ext.le (effHi lb ub) (effLo lb ub) = false) (h6 : ordOK lb plb pub ub = true)
-    (h7 : ((lb.isFinite && !ub.isFinite) || (!lb.isFinite && ub.isFinite)) = false) :
+    (h7 : ((lb.isFinite && !ub.isFinite) || (!lb.isFinite && ub.isFinite)) = false) (hni : x0.isInf = false) :
     coordValid x0 lb ub plb pub = true := by
   simp only [ordOK, Bool.and_eq_true] at h6
   obtain ⟨⟨h6a, h6b⟩, h6c⟩ := h6
   have hlbn : lb.isNan = false := by cases lb <;> simp_all [Ext.le, Ext.isNan]
   have hubn : ub.isNan = false := by cases ub <;> cases pub <;> simp_all [Ext.le, Ext.isNan]
-  have hx : (x0.isNan || (Ext.le lb x0 && Ext.le x0 ub)) = true := by
+  have hx : (x0.isNan || (x0.isFinite && Ext.le lb x0 && Ext.le x0 ub)) = true := by
     cases hxn : x0.isNan with
     | true => rfl
     | false =>
       simp only [Bool.false_or, Bool.and_eq_true]
-      exact ⟨ext_le_of_not_lt x0 lb hxn hlbn h3, ext_le_of_not_lt ub x0 hubn hxn h4⟩
+      exact ⟨⟨by cases x0 <;> simp_all [Ext.isNan, Ext.isInf, Ext.isFinite], ext_le_of_not_lt x0 lb hxn hlbn h3⟩, ext_le_of_not_lt ub x0 hubn hxn h4⟩
   have heff : Ext.lt (effLo lb ub) (effHi lb ub) = true := by
     apply ext_lt_of_not_le _ _ _ _ h5
     · cases lb <;> cases ub <;> simp_all [effLo, esub, eadd, eneg, escale, Ext.isInf, Ext.isNan, Ext.isFinite]
@@ -264,27 +277,28 @@ theorem zip5_all_of_checks : ∀ (x0 lb ub plb pub : List Ext),
     plb.all (·.isFinite) = true → pub.all (·.isFinite) = true →
     anyB (zip2 Ext.lt x0 lb) = false → anyB (zip2 (fun x u => Ext.lt u x) x0 ub) = false →
     anyB (zip2 (fun a b => Ext.le b a) (map2 effLo lb ub) (map2 effHi lb ub)) = false →
-    (zip4 ordOK lb plb pub ub).all id = true → halfAny lb ub = false →
+    (zip4 ordOK lb plb pub ub).all id = true → halfAny lb ub = false → anyB (x0.map (·.isInf)) = false →
     (zip5 coordValid x0 lb ub plb pub).all id = true
-  | [], [], [], [], [], _, _, _, _, _, _, _, _, _, _, _ => rfl
-  | x :: xs, l :: ls, u :: us, p :: ps, q :: qs, hl, hu, hp, hq, hpf, hqf, h3, h4, h5, h6, h7 => by
+  | [], [], [], [], [], _, _, _, _, _, _, _, _, _, _, _, _ => rfl
+  | x :: xs, l :: ls, u :: us, p :: ps, q :: qs, hl, hu, hp, hq, hpf, hqf, h3, h4, h5, h6, h7, h8 => by
+    simp only [List.map_cons, anyB, List.any_cons, id, Bool.or_eq_false_iff] at h8
     simp only [List.length_cons, Nat.add_right_cancel_iff] at hl hu hp hq
     simp only [List.all_cons, Bool.and_eq_true] at hpf hqf
     simp only [zip2, anyB, List.any_cons, id, Bool.or_eq_false_iff, map2] at h3 h4 h5
     simp only [zip4, List.all_cons, id, Bool.and_eq_true] at h6
     simp only [halfAny, zip2, anyB, List.any_cons, id, Bool.or_eq_false_iff] at h7
     simp only [zip5, List.all_cons, id, Bool.and_eq_true]
-    refine ⟨coordValid_of_checks x l u p q hpf.1 hqf.1 h3.1 h4.1 h5.1 h6.1 (by simp [h7.1.1, h7.1.2]), ?_⟩
+    refine ⟨coordValid_of_checks x l u p q hpf.1 hqf.1 h3.1 h4.1 h5.1 h6.1 (by simp [h7.1.1, h7.1.2]) h8.1, ?_⟩
     exact zip5_all_of_checks xs ls us ps qs hl hu hp hq hpf.2 hqf.2 (by simpa [anyB] using h3.2) (by simpa [anyB] using h4.2)
-      (by simpa [anyB] using h5.2) h6.2 (by simpa [halfAny, anyB] using h7.2)
-  | [], _ :: _, _, _, _, hl, _, _, _, _, _, _, _, _, _, _ => by simp at hl
-  | [], [], _ :: _, _, _, _, hu, _, _, _, _, _, _, _, _, _ => by simp at hu
-  | [], [], [], _ :: _, _, _, _, hp, _, _, _, _, _, _, _, _ => by simp at hp
-  | [], [], [], [], _ :: _, _, _, _, hq, _, _, _, _, _, _, _ => by simp at hq
-  | _ :: _, [], _, _, _, hl, _, _, _, _, _, _, _, _, _, _ => by simp at hl
-  | _ :: _, _ :: _, [], _, _, _, hu, _, _, _, _, _, _, _, _, _ => by simp at hu
-  | _ :: _, _ :: _, _ :: _, [], _, _, _, hp, _, _, _, _, _, _, _, _ => by simp at hp
-  | _ :: _, _ :: _, _ :: _, _ :: _, [], _, _, _, hq, _, _, _, _, _, _, _ => by simp at hq
+      (by simpa [anyB] using h5.2) h6.2 (by simpa [halfAny, anyB] using h7.2) (by simpa [anyB] using h8.2)
+  | [], _ :: _, _, _, _, hl, _, _, _, _, _, _, _, _, _, _, _ => by simp at hl
+  | [], [], _ :: _, _, _, _, hu, _, _, _, _, _, _, _, _, _, _ => by simp at hu
+  | [], [], [], _ :: _, _, _, _, hp, _, _, _, _, _, _, _, _, _ => by simp at hp
+  | [], [], [], [], _ :: _, _, _, _, hq, _, _, _, _, _, _, _, _ => by simp at hq
+  | _ :: _, [], _, _, _, hl, _, _, _, _, _, _, _, _, _, _, _ => by simp at hl
+  | _ :: _, _ :: _, [], _, _, _, hu, _, _, _, _, _, _, _, _, _, _ => by simp at hu
+  | _ :: _, _ :: _, _ :: _, [], _, _, _, hp, _, _, _, _, _, _, _, _, _ => by simp at hp
+  | _ :: _, _ :: _, _ :: _, _ :: _, [], _, _, _, hq, _, _, _, _, _, _, _, _ => by simp at hq
 
 /-- SOUND DIRECTION of "raises exactly when invalid": a definition the property's sentence calls
     invalid is never accepted (equivalently: every accepted definition is valid or unspecified). -/
@@ -296,11 +310,9 @@ theorem validate_ok_iff_valid_partial (r : Raw) (n : Norm) (h : validate r = .ok
   have hd : (lb.length != x0.length || ub.length != x0.length || plb.length != x0.length || pub.length != x0.length) = false := by
     simp [d1, d2, d3, d4]
   simp only [hd, Bool.false_eq_true, if_false]
-  split
-  · simp
-  · have := zip5_all_of_checks x0 lb ub plb pub d1 d2 d3 d4 acc.plausibleFinite.1 acc.plausibleFinite.2 acc.x0Inside.1 acc.x0Inside.2
-      acc.distinguishable acc.orderedInput acc.noHalf
-    simp [this]
+  have := zip5_all_of_checks x0 lb ub plb pub d1 d2 d3 d4 acc.plausibleFinite.1 acc.plausibleFinite.2 acc.x0Inside.1 acc.x0Inside.2
+    acc.distinguishable acc.orderedInput acc.noHalf acc.x0NotInf
+  split <;> simp [this]
 
 /-- The converse (the direction that fails): an accepted definition is never one the
     property calls invalid for a reason the theorems above cover; conversely NOT every valid
